@@ -46,6 +46,12 @@ inline uint64_t fold64(const std::vector<uint64_t>& l) {
   return a;
 }
 
+// thrown by harness code (never by the library) for malformed op lines / unknown object ids -> observation "bad-op"
+struct bad_op : std::exception { const char* what() const noexcept override { return "bad-op"; } };
+
+template<typename M>
+typename M::mapped_type& at(M& m, int id) { auto it = m.find(id); if (it == m.end()) throw bad_op(); return it->second; }
+
 // Generic main loop: `step` returns the observation line for one op; any std::exception -> "throw".
 template<typename F>
 int run_loop(F step) {
@@ -55,6 +61,7 @@ int run_loop(F step) {
     if (w.empty() || w[0][0] == '#') continue;
     std::string out;
     try { out = step(w); }
+    catch (const bad_op&) { out = "bad-op"; }
     catch (const std::exception& e) { out = std::string("throw"); if (getenv("VH_VERBOSE")) out += std::string(" ") + e.what(); }
     std::cout << out << "\n";
   }
